@@ -159,6 +159,13 @@ func runSolver(ctx context.Context, sp solverSpec, file string, timeoutMs int) (
 // detect disagreement.
 func (eng *Engine) solve(o *Obligation, timeoutMs int, all bool) {
 	o.Answers = map[string]string{}
+	if eng.updatingLedger && !alwaysClaimed(o.Kind) {
+		// the ledger admits a safety / lock obligation only if it discharges
+		// promptly: well inside the budget a later check will give it
+		if timeoutMs > 4000 {
+			timeoutMs = 4000
+		}
+	}
 	want := "unsat"
 	if o.ExpectSat {
 		want = "sat"
@@ -270,7 +277,7 @@ func (eng *Engine) solve(o *Obligation, timeoutMs int, all bool) {
 		o.Status, o.Solver, o.TimeMs = st, sv, ms
 		return
 	}
-	if !all && !eng.noRetry[o.Group] {
+	if !all && !eng.noRetry[o.Group] && !(eng.updatingLedger && !alwaysClaimed(o.Kind)) {
 		// No definitive answer. Before this is reported as a failed obligation,
 		// try once more with three times the budget: an obligation that needs a
 		// second or two on an idle machine must not fail because the machine is
